@@ -256,6 +256,10 @@ def build_solver(job, ckpt_dir=None):
         eps = int(job["eps"][0])
     problem = T.make_problem(mdp)
     kw = dict(gamma=gamma, epsilon=eps, max_batch_size=job.get("mbs", 1024), verbose=0)
+    if job.get("jdp") is False:
+        # jax_double_precision=False in a process whose 64-bit mode is already on: the flag never switches it off, the
+        # solver computes in float64 and every documented rule still applies
+        kw["jax_double_precision"] = False
     if kind in ("VI", "SAVI", "PI"):
         kw["convergence_test"] = job.get("test", "span")
     if kind == "PVI":
